@@ -83,7 +83,7 @@ def verif_hash(paths):
             files = []
             for d, _, fs in os.walk(root):
                 for f in fs:
-                    if f.endswith((".py", ".v", ".ml", ".rs", ".toml", ".json", ".ebnf", ".txt")):
+                    if f.endswith((".py", ".v", ".ml", ".rs", ".toml", ".json", ".ebnf", ".txt", ".inputs", ".derives", ".tmpl")):
                         files.append(os.path.join(d, f))
         for f in sorted(files):
             h.update(f.encode())
@@ -288,7 +288,7 @@ def model_build(timeout=900):
     return exe
 
 
-def pipe_lines(exe, lines, timeout=3600, env=None):
+def pipe_lines(exe, lines, timeout=3600, env=None, mem_gb=None):
     """Feed request lines to a driver, return response lines."""
     data = "\n".join(lines) + "\n"
     e = dict(os.environ)
@@ -300,6 +300,8 @@ def pipe_lines(exe, lines, timeout=3600, env=None):
         try:
             soft, hard = resource.getrlimit(resource.RLIMIT_STACK)
             resource.setrlimit(resource.RLIMIT_STACK, (hard, hard))
+            if mem_gb:
+                resource.setrlimit(resource.RLIMIT_AS, (mem_gb << 30, mem_gb << 30))
         except Exception:
             pass
     p = subprocess.run([exe], input=data, stdout=subprocess.PIPE, stderr=subprocess.PIPE,
@@ -414,7 +416,7 @@ class Outcome:
 TRUSTED_BASE = [
     "Coq 8.16.1 kernel (coqc); vm_compute for instance lemmas and refutation witnesses; no native_compute",
     "no axioms: Print Assumptions under every property theorem must say 'Closed under the global context'",
-    "translator tools/extract_facts.py (regex patterns over the Rust sources, fail-closed) producing Extracted.v",
+    "translator tools/extract_facts.py (whole-file templates of the 28 modelled source files with 30 holes at the decision points, fail-closed: any other difference makes the file's fact ill-typed) producing Extracted.v; tools/sexp2coq.py + harness/direct/src/bin/front.rs producing GrammarEbnf.v",
     "extraction to OCaml (ExtrOcamlBasic only: bool/option/list/prod/unit/sumbool; no Extract Constant) + ocaml/driver.ml, used only for the correspondence runs",
     "correspondence harness (harness/*, lib/*.py): differential execution of the real crates against the extracted model",
     "rustc/cargo/std, and the parts of the code that are modelled rather than verified (see DESIGN.md section 7)",
